@@ -126,8 +126,11 @@ func runC17(t *zsim.Tape, cfg *hlib.Config) *hlib.Outcome {
 	sc := &c17Scenario{}
 	out := &hlib.Outcome{Scenario: sc}
 	sc.Profile = "regular"
-	if t.Draw(2) == 1 {
+	switch t.Draw(5) {
+	case 1, 2:
 		sc.Profile = "stream"
+	case 4:
+		return runC17Conc(t, cfg)
 	}
 	sc.Target = []string{"FileStream.ReadAll", "FileStream.ReadAll", "LoadFile.Execute", "ByteStream.ReadAll", "FileStream.Read(n)"}[t.Draw(5)]
 	if sc.Target == "FileStream.Read(n)" {
